@@ -472,7 +472,7 @@ def _mirsym():
     add("C16.f/query_response_roundtrip", "C16", "mirsym", Q,
         "QueryResponse::serialize then QueryResponse::deserialize, end to end on the real code (Column::serialize_builder's branch chain with the range / delta / double-delta encoders AND the decoding loops of Column::deserialize_reader): every column comes back with the same values - integers exact whatever compression was chosen, float bits, strings, mixed cells, all-NULL row counts, opaque XOR bytes",
         ["locustdb_serialization::api::QueryResponse::{serialize,serialize_builder,deserialize,deserialize_reader}", "api::Column::{serialize_builder,deserialize_reader}", "api::{determine_delta_compressability,delta_encode,double_delta_encode}"],
-        bounds="integer columns of 0-3 (quick) / 0-4 (thorough) arbitrary i64, float columns of 0-2, string columns of 1-2, a mixed column over {Int, Float, Str, Null}, Null(n) with n symbolic, 2 XOR bytes, one two-column response; capnp runtime + generated accessors modelled from schemas/api.capnp; HashMap as association list",
+        bounds="integer columns of 0-3 arbitrary i64 (4 values time out in z3 on the double-delta paths), float columns of 0-2, string columns of 1-2, a mixed column over {Int, Float, Str, Null}, Null(n) with n symbolic, 2 XOR bytes, one two-column response; capnp runtime + generated accessors modelled from schemas/api.capnp; HashMap as association list",
         spec=src_.QueryResponseCodecSpec(),
         stubs=["capnp generated accessors -> record model driven by locustdb-serialization/schemas/api.capnp", "capnp::serialize_packed::{write_message,read_message} -> identity on the record tree", "HashMap<String,V> -> association list"],
         assumptions=["capnpc-generated accessors and the capnp runtime implement the record semantics of vlib/mirsym/capnp_model.py; serialize_packed is lossless"])
